@@ -50,6 +50,11 @@ def klass(name, **kw):
     REG.classes.setdefault(name, {}).update(kw)
 
 
+def note_type(ty):
+    _T.note_regions(ty)
+    return ty
+
+
 def classref(name):
     """A class object passed around as a value (e.g. TimeInterval given to the Cython scan)."""
     import z3
